@@ -48,9 +48,9 @@ Qed.
 Definition dinv (lo : nat) (s : nat) (b : bstate) : Prop :=
   exists rec, dlookup s gamma = Some rec /\ srel rec (b_stack b) /\ dense lo b.
 
-Lemma reach_dinv lo b1 : dinv lo Table.start_state b1 -> forall s b, reach rP tok_ok b1 s b -> dinv lo s b.
+Lemma reach_dinv lo b1 : dinv lo Table.start_state b1 -> forall s b l, reach rP tok_ok b1 s b l -> dinv lo s b.
 Proof.
-  intros H0 s b R. induction R as [|s b x y t b' R IH Hx Hid Hy Ht Hb]; [exact H0|].
+  intros H0 s b l R. induction R as [|s b l x y t b' R IH Hx Hid Hy Ht Hb]; [exact H0|].
   destruct IH as (rec & Hl & S & Dn).
   pose proof gamma_ok as G. unfold dense_ok in G. apply andb_prop in G as [_ G]. rewrite forallb_forall in G.
   specialize (G x Hx). rewrite Hid, Hl in G. rewrite forallb_forall in G. specialize (G y Hy).
@@ -108,8 +108,8 @@ Proof.
   unfold parse_source, parse_tokens, parse_tokens_with.
   destruct (parse rP stop (scan src) (reset_matcher dialects m) (reset_builder b)) as [[] c|e c|es c|c|] eqn:P; try discriminate.
   destruct (builder_result (bs c)) as [d0|] eqn:Br; [|discriminate]. intros H. inversion H; subst. clear H.
-  destruct (path_replay rP tok_ok pipe_match pipe_eof' _ _ _ _ _ P) as (b2 & s & b3 & Hs & R & He & Hend).
-  pose proof (reach_dinv (b_idc b) b2 (start_dinv _ _ Hs) s b3 R) as (rec & Hl & S & Dn).
+  destruct (path_replay rP tok_ok pipe_match pipe_eof' _ _ _ _ _ P) as (b2 & s & b3 & l & Hs & R & He & Hend & _).
+  pose proof (reach_dinv (b_idc b) b2 (start_dinv _ _ Hs) s b3 l R) as (rec & Hl & S & Dn).
   destruct (ends_doc s He) as (f & Hf & Hr). rewrite Hf in Hl. inversion Hl; subst rec.
   exact (final_dense _ _ _ _ _ S Hr Dn Hend Br).
 Qed.
